@@ -44,6 +44,11 @@ type c13Content struct {
 	venv *val.Env
 }
 
+type c13Rec struct {
+	O *float64 `yae:"o"`
+	W float64  `yae:"w"`
+}
+
 func c13Contents(g *ref.Gen) []*c13Content {
 	mk := func(name string, variant int, mismatch bool) *c13Content {
 		mismatch2 := name == "Y-mismatch"
@@ -86,6 +91,9 @@ func c13Contents(g *ref.Gen) []*c13Content {
 		} else {
 			put("ss", ref.VList(ref.TStr, ref.VStr(ss[0]), ref.VStr(ss[1]), ref.VStr(ss[2])), ss)
 		}
+		// an object with an absent optional field (host: nil pointer field)
+		recT := ref.TObj(ref.F("o", ref.TMaybe(ref.TNum)), ref.F("w", ref.TNum))
+		put("pr", ref.VObj(recT, &ref.V{T: ref.TMaybe(ref.TNum)}, ref.VNum(f)), c13Rec{nil, f})
 		put("em", ref.VMap(ref.TStr, ref.TNum), map[string]float64{})
 		put("el", ref.VList(ref.TNum), []float64{})
 		return &c13Content{name: name, env: env, host: host, tenv: env.TypeEnv(), venv: env.ValEnv()}
@@ -263,6 +271,10 @@ func runC13(c *run.Ctx) {
 				ref.Obj([]string{"p", "q", "r"}, []*ref.E{ref.Ident("em"), ref.List(ref.Ident("em"), ref.Ident("em")), ref.List(ref.Ident("el"), ref.Ident("el"))}),
 				ref.Call("string", ref.List(ref.Ident("em"), ref.Ident("em"))),
 				ref.Call("print", ref.Call("string", ref.Map([]*ref.E{ref.Ident("s"), ref.Str("k2"), ref.Str("k3")}, []*ref.E{ref.Ident("m"), ref.Ident("m"), ref.Ident("m")}))),
+				ref.List(ref.Member(ref.Ident("pr"), "o"), ref.Member(ref.Ident("pr"), "o")),
+				ref.Call("string", ref.List(ref.Member(ref.Ident("pr"), "o"), ref.Member(ref.Ident("pr"), "o"), ref.Member(ref.Ident("pr"), "o"))),
+				ref.Obj([]string{"a", "b"}, []*ref.E{ref.Member(ref.Ident("pr"), "o"), ref.List(ref.Ident("pr"), ref.Ident("pr"))}),
+				ref.CallF(ref.FInfix, "+", ref.Call("get", ref.Member(ref.Ident("pr"), "o"), ref.Ident("n")), ref.Call("len", ref.List(ref.Member(ref.Ident("pr"), "o"), ref.Member(ref.Ident("pr"), "o")))),
 			}
 			for _, e := range fixed {
 				exprs = append(exprs, e)
@@ -276,7 +288,10 @@ func runC13(c *run.Ctx) {
 			nRef := len(srcs) // expressions with a reference tree
 			srcs = append(srcs, c13LateSrcs...)
 			// expressions over built-ins only: also through the package-level Eval / Debug
-			builtinOnly := []int{0, 1, 4, 5, 7, 10, 11, 12, 13, 15}
+			builtinOnly := []int{0, 1, 4, 5, 7, 10, 11, 12, 13, 15, 17, 18, 19, 20}
+			// one host map handed over by pointer and refilled in place between invocations
+			ptrMap := map[string]interface{}{}
+			ptrHost := &ptrMap
 			// one *types.Env the host updates in place between compilations
 			mutable := types.NewEnv()
 			_ = nRef
@@ -364,7 +379,7 @@ func runC13(c *run.Ctx) {
 					eng := engines[ek]
 					lateNow = eng.late
 					k := r.Intn(10)
-					if x := r.Intn(40); x < 5 && len(pool) > 0 {
+					if x := r.Intn(40); x < 7 && len(pool) > 0 {
 						k = 100 + x
 					}
 					switch {
@@ -414,6 +429,26 @@ func runC13(c *run.Ctx) {
 							}
 						} else if o != want {
 							c.Violation("history-dependence", fmt.Sprintf("operation %d: yae.%s(%q) over environment %s gives [%s]; evaluated alone on fresh objects it gives [%s]", op, name, srcs[ei], ct.name, o, want), log)
+						}
+					case k == 105 || k == 106: // one Callable, the same *map twice in a row, its content replaced in between
+						p := pool[r.Intn(len(pool))]
+						for rep := 0; rep < 2+r.Intn(2); rep++ {
+							ct := contents[r.Intn(len(contents))]
+							for n := range ptrMap {
+								delete(ptrMap, n)
+							}
+							for n, v := range ct.host {
+								ptrMap[n] = v
+							}
+							o := facadeInvoke(engines[p.ek], p.cl, ptrHost)
+							lateNow = p.late
+							want := base(p.ek, p.ei, p.cc, ct)
+							log = append(log, fmt.Sprintf("invoke[%s] %s with the same *map refilled as %s -> %s", engines[p.ek].name, srcs[p.ei], ct.name, o))
+							c.Count("operations_compared", 1)
+							c.Count("pointer_host_invocations", 1)
+							if o != want {
+								c.Violation("history-dependence", fmt.Sprintf("operation %d: %q with the same *map now holding environment %s gives [%s]; evaluated alone on fresh objects it gives [%s]", op, srcs[p.ei], ct.name, o, want), log)
+							}
 						}
 					case k == 103 || k == 104: // the host rewrites one *types.Env in place, then compiles and runs once
 						ct := contents[[]int{0, len(contents) - 1, len(contents) - 2, len(contents) - 3, 1}[r.Intn(5)]]
@@ -573,7 +608,7 @@ func c13Stdout(c *run.Ctx, out string, log []string) {
 func init() {
 	run.Register(&run.Spec{
 		ID: "C13", Run: runC13, Level: "exploration",
-		Rule: "histories of 50-400 operations {Compile, Invoke, package-level Eval / Debug over the reused host maps, late registration of a function and an operator (expressions using them must be refused before and work after), one *types.Env rewritten in place to another signature and compiled against} on two reused engines (vm and closure compiler, harness strict / lazy functions registered) over a pool of 15 expressions (fixed: map rendering, print, lazy host calls, shared sub-values; generated) and 7 environment contents (4 of equal types and different values, 2 with a mismatching type, 1 with the same names and top-level kinds but other element types), each content reused as the same map, *types.Env and *val.Env object across calls, expressions and engines; file descriptor 1 redirected for the duration; " +
+		Rule: "histories of 50-400 operations {Compile, Invoke, package-level Eval / Debug over the reused host maps, late registration of a function and an operator (expressions using them must be refused before and work after), one *types.Env rewritten in place to another signature and compiled against, one host map passed by pointer to the same Callable several times in a row and refilled in between} on two reused engines (vm and closure compiler, harness strict / lazy functions registered) over a pool of 15 expressions (fixed: map rendering, print, lazy host calls, shared sub-values; generated) and 7 environment contents (4 of equal types and different values, 2 with a mismatching type, 1 with the same names and top-level kinds but other element types), each content reused as the same map, *types.Env and *val.Env object across calls, expressions and engines; file descriptor 1 redirected for the duration; " +
 			"monitor: every operation's outcome (value incl. string() and String() renderings, failure class, environment rejection) equals the outcome on a fresh engine with fresh objects (map-valued results are thereby rendered tens of times under different hash seeds / iteration orders); a deep snapshot of every host value and environment before == after; a second stream accounts for standard output exactly: bytes written == the reference evaluator's print log. distinct = distinct expression pool",
 		Assume:    []string{"programs with relative time literals are excluded", "outcome equality ignores error message text (only the class)"},
 		MinEvents: 2000, EventKey: "operations_compared",
